@@ -18,6 +18,7 @@ import numpy as np
 from vf.bounded import Suite
 from refsem import core as R
 from refsem import cgroup as G
+from refsem import cutrank as CR
 
 S = Suite("C03")
 H = "graphiq.backends.stabilizer.functions.height:"
@@ -273,6 +274,200 @@ def emitter_sorted_case(inp):
     if a != b:
         return "output graphs are not a permutation of the input graphs"
     return None
+
+
+# ------------------------------------------------------------------ hardening: entry points x sizes where the field matters
+def _graph_variants(A):
+    """the same labelled graph built three ways (nodes 0..n-1 inserted in increasing order in each)"""
+    import networkx as nx
+
+    n = len(A)
+    g1 = nx.Graph()
+    g1.add_nodes_from(range(n))
+    g1.add_edges_from([(i, j) for i in range(n) for j in range(i + 1, n) if A[i, j]])  # no edge attributes
+    g2 = nx.from_numpy_array(A.astype(int))  # integer 'weight' attributes
+    g3 = nx.from_numpy_array(A.astype(float))  # float 'weight' attributes
+    return [("nx.Graph(edges)", g1), ("from_numpy_array(int)", g2), ("from_numpy_array(float)", g3)]
+
+
+def _graph_snapshot(g):
+    return (list(g.nodes(data=True)), sorted((min(a, b), max(a, b), repr(sorted(d.items()))) for a, b, d in g.edges(data=True)))
+
+
+def _dict_symptom(d, want, tag):
+    n = len(want)
+    wd = {-1: 0}
+    wd.update({k: want[k] for k in range(n)})
+    try:
+        got = {int(k): v for k, v in d.items()}
+    except Exception:  # noqa: BLE001
+        return f"{tag}: height_dict = {d!r}"
+    if len(d) != n + 1 or set(got) != set(wd) or any(got[k] != wd[k] for k in wd):
+        return f"{tag}: height_dict = {d}, GF(2) cut ranks = {wd}"
+    return None
+
+
+@S.item(
+    "height.entry_points_agree",
+    site=H + "height_dict / height_max / height_func_list / height_function ; TimeReversedSolver.determine_n_emitters",
+    bound="fixed families on 6 vertices: ALL 384 labelled graphs whose cut-rank profile over the reals differs from the GF(2) "
+    "profile, all 60 labelled 6-rings, all 10 labelled K_{3,3}, all 60 labelled triangular prisms + their complements; seeded: "
+    "every graph of quick 150 / thorough 2000 random 6-vertex graphs and quick 120 / thorough 1500 graphs on 7..8 vertices, half of "
+    "them drawn from the field-sensitive ones; thorough: ALL 32768 labelled graphs on 6 vertices.  Per graph: graph= entry (built "
+    "as nx.Graph(edges) / from_numpy_array int / float), x,z entry (int and float arrays), tableau entry; each called twice",
+    exhaustive=False,
+    clause="for a graph state the height is the GF(2) rank of the adjacency block joining the two sides - by every entry point "
+    "(graph / x,z matrices / tableau), which agree with each other; arguments are left unchanged",
+)
+def entry_points_case(inp):
+    import graphiq.backends.stabilizer.functions.height as height
+    from graphiq.backends.stabilizer.tableau import StabilizerTableau
+    from graphiq.solvers.time_reversed_solver import TimeReversedSolver
+
+    A = np.array(inp["adj"], dtype=int)
+    n = len(A)
+    want = CR.cut_rank_profile(inp["adj"])
+    if n <= 6 and inp.get("sv"):
+        v = R.graph_state(A)
+        ent = [int(round(R.entropy_cut(v, n, k))) for k in range(n)]
+        if ent != want:
+            raise RuntimeError(f"harness: GF(2) rank profile {want} vs state-vector entropy {ent}")
+    hmax = max(want)
+    # graph entry point
+    for tag, g in _graph_variants(A):
+        snap = _graph_snapshot(g)
+        for rep in (1, 2):
+            bad = _dict_symptom(height.height_dict(graph=g), want, f"graph={tag} (call {rep})")
+            if bad:
+                return bad
+            m = height.height_max(graph=g)
+            if m != hmax:
+                return f"graph={tag} (call {rep}): height_max = {m}, max GF(2) cut rank = {hmax}"
+        if _graph_snapshot(g) != snap:
+            return f"graph={tag}: the graph passed to height_dict/height_max was modified"
+    # x,z entry point
+    for dt in (int, float):
+        x, z = np.eye(n, dtype=dt), A.astype(dt)
+        x0, z0 = x.copy(), z.copy()
+        for rep in (1, 2):
+            got = _as_int_list(height.height_func_list(x, z))
+            if got != want:
+                return f"x,z ({dt.__name__}, call {rep}): height_func_list = {got}, GF(2) cut ranks = {want}"
+            bad = _dict_symptom(height.height_dict(x_matrix=x, z_matrix=z), want, f"x,z ({dt.__name__}, call {rep})")
+            if bad:
+                return bad
+            m = height.height_max(x_matrix=x, z_matrix=z)
+            if m != hmax:
+                return f"x,z ({dt.__name__}, call {rep}): height_max = {m}, max GF(2) cut rank = {hmax}"
+        k = inp.get("k", n // 2 - 1)
+        hk = height.height_function(x, z, k)
+        if hk != want[k]:
+            return f"x,z ({dt.__name__}): height_function(k={k}) = {hk}, GF(2) cut rank = {want[k]}"
+        if x.dtype != x0.dtype or z.dtype != z0.dtype or not np.array_equal(x, x0) or not np.array_equal(z, z0):
+            return f"x,z ({dt.__name__}): the arrays passed to the height functions were modified"
+    # tableau entry point (the solver's budget)
+    tab = StabilizerTableau([np.eye(n, dtype=int), A.copy()])
+    for rep in (1, 2):
+        ne = TimeReversedSolver.determine_n_emitters(tab)
+        if ne != hmax:
+            return f"tableau (call {rep}): determine_n_emitters = {ne}, max GF(2) cut rank = {hmax}"
+    return None
+
+
+def _budget(adj):
+    return max(CR.cut_rank_profile(np.array(adj).astype(int).tolist()))
+
+
+def _sorted_symptom(adjs, out, tag):
+    """contract of emitter_sorted: (graph, budget) pairs, every input graph once, budget = max GF(2) cut rank, ascending"""
+    if len(out) != len(adjs):
+        return f"{tag}: {len(out)} results for {len(adjs)} graphs"
+    ks = []
+    for adj, k in out:
+        want = _budget(adj)
+        if k != want:
+            return f"{tag}: budget {k} reported for {np.array(adj).astype(int).tolist()}, max GF(2) cut rank {want}"
+        ks.append(k)
+    if ks != sorted(ks):
+        return f"{tag}: not sorted by budget: {ks}"
+    a = sorted(np.array(x).astype(int).tolist() for x, _ in out)
+    b = sorted(np.array(x).astype(int).tolist() for x in adjs)
+    if a != b:
+        return f"{tag}: output graphs are not a permutation of the input graphs"
+    return None
+
+
+@S.item(
+    "emitter_sorted.budget.six_plus",
+    site="graphiq.utils.relabel_module:emitter_sorted",
+    bound="fixed: the 384 field-sensitive labelled 6-vertex graphs (see height.entry_points_agree) + the 60 labelled 6-rings in 74 "
+    "lists of 6, each list padded with 2 graphs of other budgets; seeded: quick 40 / thorough 400 lists of 3..6 graphs on 6..8 "
+    "vertices (half field-sensitive).  Each list passed as int ndarray, float ndarray and Python list of arrays, twice",
+    clause="relabellings are ranked by the same emitter budget (max height = max GF(2) cut rank); the input is left unchanged",
+)
+def emitter_sorted_big_case(inp):
+    from graphiq.utils.relabel_module import emitter_sorted
+
+    base = [np.array(a, dtype=int) for a in inp["adjs"]]
+    forms = [("int ndarray", np.array(base)), ("float ndarray", np.array(base).astype(float)), ("list of arrays", [b.copy() for b in base])]
+    for tag, arg in forms:
+        before = [np.array(a).copy() for a in arg]
+        for rep in (1, 2):
+            bad = _sorted_symptom(base, emitter_sorted(arg), f"{tag} (call {rep})")
+            if bad:
+                return bad
+        if len(arg) != len(before) or any(not np.array_equal(a, b) or np.asarray(a).dtype != b.dtype for a, b in zip(arg, before)):
+            return f"{tag}: emitter_sorted modified its argument"
+    return None
+
+
+@S.item(
+    "iso_finder.sort_emit",
+    site="graphiq.utils.relabel_module:iso_finder (sort_emit=True) -> emitter_sorted -> height_max(graph=)",
+    bound="fixed: every 8th of the 384 field-sensitive 6-vertex graphs + 6-ring, K_{3,3}, prism in 3 labellings each, n_iso in "
+    "{8, 30} x seed in {0, 1}; seeded: quick 30 / thorough 300 graphs on 6..7 vertices with many automorphisms removed or not "
+    "(random graphs and random graphs joined with a twin vertex), n_iso in {6, 20}.  Monitor on the real emitter_sorted at its "
+    "call site inside iso_finder",
+    clause="relabellings are ranked by the emitter budget: whenever iso_finder sorts, each budget it uses is the max GF(2) cut "
+    "rank and the returned relabellings (after the original) are in ascending budget order",
+)
+def iso_sort_case(inp):
+    import warnings
+    import graphiq.utils.relabel_module as rm
+
+    A = np.array(inp["adj"], dtype=int)
+    calls = []
+    real = rm.emitter_sorted
+
+    def spy(adj_arr):
+        given = [np.array(a).copy() for a in adj_arr]
+        out = real(adj_arr)
+        calls.append((given, out))
+        return out
+
+    rm.emitter_sorted = spy
+    try:
+        with warnings.catch_warnings():
+            warnings.simplefilter("ignore")
+            A_arg = A.copy()
+            res = rm.iso_finder(A_arg, inp["n_iso"], sort_emit=True, seed=inp["seed"])
+    finally:
+        rm.emitter_sorted = real
+    if not np.array_equal(A_arg, A):
+        return "iso_finder modified the adjacency matrix it was given"
+    for given, out in calls:
+        bad = _sorted_symptom(given, out, "emitter_sorted inside iso_finder")
+        if bad:
+            return bad
+    if calls:
+        res = [np.array(r).astype(int) for r in res]
+        if not np.array_equal(res[0], A):
+            return "sorted output: the original graph is not the first element"
+        ks = [_budget(r) for r in res[1:]]
+        if ks != sorted(ks):
+            return f"sorted output: budgets after the original are {ks}, not ascending"
+    return None
+
 
 
 # ------------------------------------------------------------------ domain
